@@ -34,7 +34,8 @@ CHECKS = {
         text="Theorems (all trees, filters, stop predicates, maxlevel in Z or None): each of the five iterator "
              "transcriptions (incl. the fuelled worklist loops, fuel proved sufficient) equals its unrestricted order on "
              "prune stop maxlevel t filtered by filter_; prune = the pointwise admitted set of the statement; same "
-             "multiset for all five; maxlevel <= 0 yields nothing. Tie: every shape <= 4 nodes x all stop subsets x all "
+             "multiset for all five; maxlevel <= 0 yields nothing; the relative order of any two yielded nodes is the "
+             "unrestricted order's (C06_order_pre/post/level: subsequence theorems). Tie: every shape <= 4 nodes x all stop subsets x all "
              "filter subsets x maxlevel in {None,-1,0..h+2}, plus 5-node shapes and random larger trees.",
         design="6/C06", note="filter_/stop are pure predicates; laziness not modelled.",
         technique="Coq proof by nested tree induction / loop invariant over fuel + exhaustive small-scope correspondence"),
@@ -42,20 +43,24 @@ CHECKS = {
         text="Theorems: C01_step - every call (three assignments + constructors), any arguments, any hook-fault oracle, both "
              "mixins, both assertion settings, any re-entrancy fuel keeps the link state a consistent forest (Inv), "
              "including refused, hook-aborted and half-rolled-back calls; C01_history by induction over histories; the "
-             "statement's clauses as corollaries of Inv; inv_b (evaluated on observed link maps) <-> Inv. Not proved: "
-             "assertion irrelevance (kept as C01_assertions_full, checked by correspondence). Tie: every forest <= 3 nodes "
+             "statement's clauses as corollaries of Inv; inv_b (evaluated on observed link maps) <-> Inv; assertion "
+             "irrelevance proved for fault-free parent/del/children calls (C01_assertions_parent_del/_children); with "
+             "faults it is kept visible as C01_assertions_full and checked by correspondence. Tie: every forest <= 3 nodes "
              "x every call x 5 classes x all single fault positions / persistent vetoes / sampled doubles x "
-             "ANYTREE_ASSERTIONS 0/1 + random live histories; observed maps compared with the model and fed to inv_b.",
-        design="6/C01", note="Hooks that mutate the tree are outside the quantifier.",
+             "ANYTREE_ASSERTIONS 0/1 + random live histories, a sixth of the cases on node classes with user-defined "
+             "__eq__/__bool__/__len__/__hash__; observed maps compared with the model and fed to inv_b.",
+        design="6/C01, 0", note="Hooks that mutate the tree are outside the quantifier (seeded change C16-seed2 lives there and is not detected).",
         technique="Coq proof (invariant preservation through a state+exception monad, induction over histories) + exhaustive small-scope fault-injection correspondence"),
     "C02": dict(
-        text="Theorem C02_parent: exact outcome (LoopError iff), final link state (pointwise spec: what changes and that "
-             "nothing else does) and hook log of every fault-free parent assignment from any consistent state; non-node "
-             "parent -> TreeError. Children assignment/deletion/constructor effects are not yet proved in Coq "
-             "(C02_children_full stays visible) and are decided by evaluating the pointwise spec on the observed states "
-             "of every forest <= 3 nodes (all) and 4 nodes (sampled) x every call x 5 classes + random histories.",
-        design="6/C02", note="partial: children-level effect theorem missing (spec evaluated on observations instead).",
-        technique="Coq proof (parent setter) + exhaustive small-scope correspondence against a pointwise spec evaluated in Coq"),
+        text="Theorems: exact outcome (LoopError/TreeError iff), final link state (pointwise: what changes and that "
+             "nothing else does) and hook log of every fault-free call from any consistent state: C02_parent, C02_del, "
+             "C02_children (detach all former children in order, attach the new ones in order), C02_children_treeerror / "
+             "_not_iterable / _looperror (refusals), C02_constructors (= creation of a detached node followed by the "
+             "assignments). Tie: every forest <= 3 nodes (all) and 4 nodes (sampled) x every call (node, None, non-node "
+             "incl. falsy non-node arguments) x 5 classes + adversarial classes + random histories; the pointwise spec "
+             "is also evaluated on the observed states.",
+        design="6/C02, 0", note="fault-free calls; calls with raising hooks are C03/C16's subject.",
+        technique="Coq proof (symbolic execution of setter/deleter/constructor monads) + exhaustive small-scope correspondence against a pointwise spec evaluated in Coq"),
     "C03": dict(
         text="The full statement is false of the code (5 known-finding classes, each reproduced and listed). Proved: "
              "C03_parent_guarded (exact boundary for the parent setter under any fault oracle), validation refusals and "
@@ -68,10 +73,10 @@ CHECKS = {
     "C16": dict(
         text="Theorems for the parent setter: exact log with state snapshots of every fault-free change, silence of "
              "no-op and refused assignments, enumeration of every possible ending under any fault oracle (sp_end), "
-             "post-hook faults do not roll back, what each hook observes. Children-level log spec (expected_log) is "
-             "evaluated on observed logs (C16_children_log_full visible, unproved). Tie: every forest <= 3 nodes x every "
+             "post-hook faults do not roll back, what each hook observes; C16_del_log and C16_children_log: exact "
+             "wrapping of the per-child calls by the *_children hooks with the state each observes. Tie: every forest <= 3 nodes x every "
              "call with all eight hooks logging kind/node/argument/complete link map.",
-        design="6/C16", note="partial: *_children wrapping not yet proved in Coq.",
+        design="6/C16, 0", note="hooks are observers that may raise; hooks that themselves mutate the tree are outside the model (seeded change C16-seed2 is not detected).",
         technique="Coq proof (symbolic execution of the setter monad) + exhaustive correspondence of hook logs with state snapshots"),
     "C18": dict(
         text="Theorems: C18_lockstep - for node arguments the two mixins' setters are the same function (all faults, "
@@ -84,11 +89,13 @@ CHECKS = {
     "C04": dict(
         text="Theorems (all trees, all positions): path/ancestors/root/depth (fuelled upward walks never run out), "
              "is_root/is_leaf, siblings, descendants, leaves, size, height, leftsibling/rightsibling transcriptions equal "
-             "their definitions over (root tree, position). commonancestors is not yet proved (C04_commonancestors_full "
-             "visible) and decided by evaluating its spec on observations. Tie: every shape <= 5 nodes x every node x "
-             "commonancestors argument lists, AnyNode/NodeMixin/LightNodeMixin classes, a quarter of the trees reached "
-             "through mutation histories before reading.",
-        design="6/C04", note="plain classes (adversarial special methods: C17); node = (tree, position), heap bridge via C01.",
+             "their definitions over (root tree, position); commonancestors = prefixes of the longest common prefix of "
+             "all arguments; bridge to the link state: for every consistent heap the tree of a root (tree_of) has the "
+             "heap's children lists and parent pointers at every position (C04_tree_of_heap/_children_agree/"
+             "_parent_agree). Tie: every shape <= 5 nodes x every node x commonancestors argument lists, AnyNode/"
+             "NodeMixin/LightNodeMixin/SymlinkNode-mixed classes and adversarial special-method classes, a quarter of "
+             "the trees reached through mutation histories before reading.",
+        design="6/C04, 0", note="node = (tree, position); the heap bridge is the abstraction function of Model/Abs.v.",
         technique="Coq proof (induction over positions/trees) + exhaustive small-scope correspondence"),
     "C15": dict(
         text="Theorems: the zip-filter of the two root paths is the prefix list of the longest common prefix; walk = "
@@ -99,8 +106,10 @@ CHECKS = {
     "C12": dict(
         text="Theorems: node statements = C06 pre-order; edge statements = all parent-child pairs with both ends admitted "
              "and filtered (pointwise edges_ann) under the exact guard 'no declared parent has a child with stop and "
-             "filter_' (holds for every export without stop, every maxlevel incl. 0 after the fix: commit); refutation "
-             "witness for the stop case (known finding KF-C12-1, pinned by tests/refdata); escaping round-trip / "
+             "filter_' (holds for every export without stop, every maxlevel incl. 0 after the fix: 04bedb8); C12_edges_exact: "
+             "for ALL arguments the emitted edges are edges_dot (children iterated without stop), and no link between two "
+             "declared nodes is ever missing (C12_no_link_missing) - the stop case only adds edges to undeclared nodes: "
+             "refutation witness C12_stop_refuted (known finding KF-C12-1, pinned by tests/refdata); escaping round-trip / "
              "injective / well-formed on the character class extracted from /repo; unique-id table defined/stable/"
              "injective; verbatim placement. Tie: exact line text of DotExporter/UniqueDotExporter/RenderTreeGraph on "
              "every shape <= 4 nodes x stop subsets x filter subsets x maxlevel + random rich cases (special characters, "
@@ -119,19 +128,21 @@ CHECKS = {
         text="Theorems: strict get = the component-wise fold of the statement with the first failing component's error "
              "class; relax=True returns None exactly where strict raises and never raises (true after fix: e36f5bb; D5); "
              "root-component handling strict vs relaxed; the names down to a node and the Walker-spelled relative path "
-             "resolve to it under sibling-unique ordinary names. String-level split/join stays visible (unproved); the "
-             "collision class is known finding KF-C07-2. Tie: trees <= 4 nodes x name pools with metacharacters x paths "
+             "resolve to it under sibling-unique ordinary names; string level: split (join parts) = parts for clean parts "
+             "(C07_split_join) and the absolute path string of a node resolves to it (C07_abs_roundtrip); the "
+             "collision class outside these hypotheses is known finding KF-C07-2 (exact guard evaluated in Coq). Tie: trees <= 4 nodes x name pools with metacharacters x paths "
              "<= 3 components x ignorecase/relax/separator/pathattr, round trips for every node pair.",
         design="6/C07, 7 (D5, D12)", note="ASCII names when ignorecase; str(getattr) shipped by Python.",
         technique="Coq proof (fold, relax-vs-strict simulation, round trips) + correspondence + known-finding class"),
     "C08": dict(
         text="Theorems: the compiled regex (table/prefix/anchor extracted from /repo) matches iff the declarative "
              "wildcard relation; cache invariant and history independence for the extracted key (pattern, ignorecase) "
-             "incl. eviction; refutation witness for 'strict = relaxed or raises' (KF-C08-1). The denotation clauses "
-             "(set equality with den, pre-order, no duplicates, agreement with get) are evaluated in Coq on observed "
-             "results. Tie: patterns over names/wildcards/**/../. on trees <= 4 nodes, glob vs get, 60-call cache "
+             "incl. eviction; refutation witness for 'strict = relaxed or raises' (KF-C08-1); relaxed glob never raises "
+             "(C08_relaxed_total) and yields exactly the denotation of the component list (C08_relaxed_den: membership "
+             "iff). Order and duplicate-freeness of the result (C08_relaxed_order_full) stay visible, not proved, and "
+             "are evaluated in Coq on observed results together with the agreement with get. Tie: patterns over names/wildcards/**/../. on trees <= 4 nodes, glob vs get, 60-call cache "
              "histories across _MAXCACHE each compared with cold-cache runs.",
-        design="6/C08, 7 (D6)", note="partial: relaxed-denotation theorem not proved in Coq (C08_relaxed_den_full visible).",
+        design="6/C08, 7 (D6), 0", note="partial: order/no-duplicates of glob results not proved (C08_relaxed_order_full visible).",
         technique="Coq proof (matcher, cache invariant) + refutation + correspondence with denotational spec evaluated in Coq"),
     "C10": dict(
         text="Theorems: export with default iterators = structural map of the tree cut at maxlevel (bookkeeping keys from "
